@@ -43,6 +43,14 @@ type IfaceJ struct {
 	TypeParams []TParamJ `json:"typeParams"`
 	Methods    []MethodJ `json:"methods"` // the full method set, sorted by name
 	Embeds     []string  `json:"embeds"`  // embedded interfaces as source text
+	// the declaration as a tree: own method names and, recursively, the embedded interfaces' (C02: method-set model)
+	Tree *IfaceTreeJ `json:"tree,omitempty"`
+}
+
+type IfaceTreeJ struct {
+	Src    string       `json:"src"`
+	Own    []string     `json:"own"`
+	Embeds []IfaceTreeJ `json:"embeds"`
 }
 
 type ReplaceJ struct {
@@ -70,17 +78,61 @@ func init() {
 	register("C13", c14{"C13"})
 }
 
-var embedCatalogue = []struct {
+type embedDecl struct {
 	src     string
 	pkg     string
-	methods []MethodJ
-}{
-	{"alpha.I", pkgAlpha, []MethodJ{{Name: "M"}}},
-	{"LocalI", pkgSrc, []MethodJ{{Name: "L"}}},
+	methods []MethodJ // own methods
+	embeds  []string  // src of the interfaces it embeds itself
+}
+
+var errT = TyJ{K: "universe", Name: "error"}
+
+var embedCatalogue = []embedDecl{
+	{"alpha.I", pkgAlpha, []MethodJ{{Name: "M"}}, nil},
+	{"LocalI", pkgSrc, []MethodJ{{Name: "L"}}, nil},
 	{"io.Reader", "io", []MethodJ{{Name: "Read", Params: []VarJ{{Name: "p", Type: TyJ{K: "slice", Elem: &TyJ{K: "basic", Name: "byte"}}}},
-		Results: []VarJ{{Name: "n", Type: basicT("int")}, {Name: "err", Type: TyJ{K: "universe", Name: "error"}}}}}},
-	{"alpha.GI[int]", pkgAlpha, []MethodJ{{Name: "Get", Results: []VarJ{{Name: "", Type: basicT("int")}}}}},
-	{"alpha.AI", pkgAlpha, []MethodJ{{Name: "M"}}},
+		Results: []VarJ{{Name: "n", Type: basicT("int")}, {Name: "err", Type: errT}}}}, nil},
+	{"alpha.GI[int]", pkgAlpha, []MethodJ{{Name: "Get", Results: []VarJ{{Name: "", Type: basicT("int")}}}}, nil},
+	{"alpha.AI", pkgAlpha, []MethodJ{{Name: "M"}}, nil},
+	{"alpha.Closer", pkgAlpha, []MethodJ{{Name: "Close2", Results: []VarJ{{Name: "", Type: errT}}}}, nil},
+	// two levels, and a diamond when embedded next to alpha.I or alpha.Closer
+	{"alpha.RC", pkgAlpha, []MethodJ{{Name: "Flush2"}}, []string{"alpha.I", "alpha.Closer"}},
+	{"io.ReadCloser", "io", nil, []string{"io.Reader", "io.Closer"}},
+	{"io.Closer", "io", []MethodJ{{Name: "Close", Results: []VarJ{{Name: "", Type: errT}}}}, nil},
+}
+
+func embedByName(src string) embedDecl {
+	for _, e := range embedCatalogue {
+		if e.src == src {
+			return e
+		}
+	}
+	panic("unknown embedded interface " + src)
+}
+
+// flatten: every method reachable from e with the interface that declares it
+func (e embedDecl) flatten() (ms []MethodJ, origin []string) {
+	for _, m := range e.methods {
+		ms = append(ms, m)
+		origin = append(origin, e.src+"."+m.Name)
+	}
+	for _, s := range e.embeds {
+		fm, fo := embedByName(s).flatten()
+		ms = append(ms, fm...)
+		origin = append(origin, fo...)
+	}
+	return
+}
+
+func (e embedDecl) tree() IfaceTreeJ {
+	t := IfaceTreeJ{Src: e.src, Own: []string{}, Embeds: []IfaceTreeJ{}}
+	for _, m := range e.methods {
+		t.Own = append(t.Own, m.Name)
+	}
+	for _, s := range e.embeds {
+		t.Embeds = append(t.Embeds, embedByName(s).tree())
+	}
+	return t
 }
 
 var c14ParamNames = []string{"x", "ctx", "s", "", "_", "y", "err", "n", "v", "a", "b", "val", "in", "out", "http", "alpha", "io", "src", "data", "opts", "", ""}
@@ -178,15 +230,24 @@ func genIface(r *rand.Rand, idx int, placement string, stream string) IfaceJ {
 		}
 		it.Methods = append(it.Methods, m)
 	}
-	// embedded interfaces
+	// embedded interfaces: a method may be reached along several paths as long as it is the same declaration
+	tree := &IfaceTreeJ{Src: it.Name, Own: []string{}, Embeds: []IfaceTreeJ{}}
+	for _, m := range it.Methods {
+		tree.Own = append(tree.Own, m.Name)
+	}
+	originOf := map[string]string{}
+	for n := range used {
+		originOf[n] = "own"
+	}
 	if r.Intn(3) == 0 {
 		for _, e := range embedCatalogue {
 			if r.Intn(3) != 0 {
 				continue
 			}
+			fm, fo := e.flatten()
 			clash := false
-			for _, m := range e.methods {
-				if used[m.Name] {
+			for i, m := range fm {
+				if o, ok := originOf[m.Name]; ok && o != fo[i] {
 					clash = true
 				}
 			}
@@ -194,7 +255,12 @@ func genIface(r *rand.Rand, idx int, placement string, stream string) IfaceJ {
 				continue
 			}
 			it.Embeds = append(it.Embeds, e.src)
-			for _, m := range e.methods {
+			tree.Embeds = append(tree.Embeds, e.tree())
+			for i, m := range fm {
+				if _, ok := originOf[m.Name]; ok {
+					continue // already in the set through another path
+				}
+				originOf[m.Name] = fo[i]
 				used[m.Name] = true
 				mm := m
 				mm.From = e.src
@@ -202,6 +268,7 @@ func genIface(r *rand.Rand, idx int, placement string, stream string) IfaceJ {
 			}
 		}
 	}
+	it.Tree = tree
 	sort.Slice(it.Methods, func(i, j int) bool { return it.Methods[i].Name < it.Methods[j].Name })
 	mock := "Mock"
 	if it.Name[0] >= 'a' && it.Name[0] <= 'z' {
